@@ -9,6 +9,8 @@ import (
 	"sync"
 	"time"
 
+	"go.dedis.ch/kyber/v3"
+	"go.dedis.ch/kyber/v3/group/nist"
 	"go.dedis.ch/kyber/v3/util/key"
 	"go.dedis.ch/onet/v3/log"
 	"go.dedis.ch/onet/v3/network"
@@ -25,9 +27,29 @@ import (
 // identity since the op began, and the sizes of the two connection tables of
 // the pair. Oracle: every value dispatched exactly once, at the router it was
 // sent to, carrying the identity of the router that sent it.
+// `njunk a b kind v w`: a sends v to b; while b's receive routine is still
+// inside the processor of v (held by the harness), a writes a well-formed
+// frame b cannot decode on the same connection (kind 0: a type id nobody
+// registered, written raw; kind 1: a registered type holding a point of
+// another group than the routers' suite, sent with Router.Send) and then
+// sends w; the processor is released. One connection carries the messages of
+// every run between two servers: the frame must be skipped, w dispatched, the
+// connection kept.
 
 // C01NetMsg is the router-level message of the class.
 type C01NetMsg struct{ V int }
+
+// C01NetOdd is a registered message whose point belongs to another group than
+// the one of the routers' suite: it is encoded and framed like every message
+// and refused by the receiver's Unmarshal.
+type C01NetOdd struct{ P kyber.Point }
+
+// c01junkFrame is a complete frame body (type id + payload) whose type id no
+// process has registered.
+func c01junkFrame() []byte {
+	b := []byte{0xc0, 0x1a, 0x5e, 0xed, 0xc0, 0x1a, 0x4e, 0xed, 0x8c, 0x01, 0xa5, 0xee, 0xd0, 0xc0, 0x1a, 0x55}
+	return append(b, 0x08, 0x2a, 0x12, 0x03, 'o', 'd', 'd')
+}
 
 var (
 	c01NetType     network.MessageTypeID
@@ -85,6 +107,7 @@ func c01net(c *h.Ctx, cs *h.Case) {
 	c01NetOnce.Do(func() {
 		log.SetDebugVisible(0)
 		c01NetType = network.RegisterMessage(&C01NetMsg{})
+		network.RegisterMessage(&C01NetOdd{})
 	})
 	tk0 := strings.Fields(cs.Ops[0])
 	if len(tk0) != 4 {
@@ -105,6 +128,9 @@ func c01net(c *h.Ctx, cs *h.Case) {
 	var mu sync.Mutex
 	cond := sync.NewCond(&mu)
 	var disp []c01disp
+	// hold[v]: the processor of value v signals that it was entered and waits until the harness lets it go
+	type c01hold struct{ entered, gate chan struct{} }
+	hold := map[int]*c01hold{}
 	for i := 0; i < n; i++ {
 		kp := key.NewKeyPair(fix.Suite)
 		var r *network.Router
@@ -146,8 +172,17 @@ func c01net(c *h.Ctx, cs *h.Case) {
 				}
 			}
 			disp = append(disp, c01disp{at, from, m.V})
+			hd := hold[m.V]
+			delete(hold, m.V)
 			cond.Broadcast()
 			mu.Unlock()
+			if hd != nil {
+				close(hd.entered)
+				select {
+				case <-hd.gate:
+				case <-time.After(10 * time.Second):
+				}
+			}
 			return nil
 		})
 		routers = append(routers, r)
@@ -294,6 +329,63 @@ func c01net(c *h.Ctx, cs *h.Case) {
 			}
 			settle(a, b)
 			cs.Impl = append(cs.Impl, obs(n0, a, b))
+		case len(tk) == 7 && tk[1] == "njunk":
+			a, b, kind, v, w := num(2), num(3), num(4), num(5), num(6)
+			if a < 0 || a >= n || b < 0 || b >= n || a == b || kind < 0 || kind > 1 || v < 0 || w < 0 {
+				cs.Impl = append(cs.Impl, "bad-op")
+				continue
+			}
+			hd := &c01hold{entered: make(chan struct{}), gate: make(chan struct{})}
+			mu.Lock()
+			n0 := len(disp)
+			hold[v] = hd
+			mu.Unlock()
+			sentTo[v] = [2]int{a, b}
+			sentTo[w] = [2]int{a, b}
+			send(a, b, v)
+			select {
+			case <-hd.entered:
+			case <-time.After(5 * time.Second):
+				close(hd.gate)
+				cs.Impl = append(cs.Impl, "hang")
+				cs.Fail("lost", fmt.Sprintf("value %d sent by router %d to router %d was not dispatched within 5 s", v, a, b))
+				return
+			}
+			// b's receive routine of the connection sits in the processor of v: what a writes now queues up behind v
+			conns := routers[a].VerifConnsTo(routers[b].ServerIdentity.GetID())
+			var jerr error
+			switch {
+			case len(conns) == 0:
+				jerr = fmt.Errorf("router %d has no connection to router %d after a send", a, b)
+			case kind == 1:
+				_, jerr = routers[a].Send(routers[b].ServerIdentity, &C01NetOdd{P: nist.NewBlakeSHA256P256().Point().Pick(nist.NewBlakeSHA256P256().XOF([]byte("c01")))})
+			default:
+				switch cn := conns[0].(type) {
+				case *network.LocalConn:
+					jerr = cn.VerifSendRaw(c01junkFrame())
+				case *network.TCPConn:
+					_, jerr = cn.VerifSendRaw(c01junkFrame())
+				default:
+					jerr = fmt.Errorf("connection of type %T", cn)
+				}
+			}
+			if jerr != nil {
+				close(hd.gate)
+				cs.Impl = append(cs.Impl, "hang")
+				cs.Fail("setup", "writing the undecodable frame: "+jerr.Error())
+				return
+			}
+			c.Count(fmt.Sprintf("op=njunk kind=%d tcp=%v", kind, tcp))
+			send(a, b, w)
+			close(hd.gate)
+			if !waitDisp(n0 + 2) {
+				cs.Impl = append(cs.Impl, "hang")
+				cs.Fail("lost", fmt.Sprintf("value %d, written by router %d (Send returned nil) behind a well-formed frame that router %d cannot decode, was not dispatched within 5 s: table %d/%d",
+					w, a, b, tableLen(a, b), tableLen(b, a)))
+				return
+			}
+			settle(a, b)
+			cs.Impl = append(cs.Impl, obs(n0, a, b))
 		default:
 			cs.Impl = append(cs.Impl, "bad-op")
 		}
@@ -338,6 +430,9 @@ func c01netGen(c *h.Ctx, yield func(*h.Case)) {
 	yield(&h.Case{Class: "net-corpus", Ops: []string{"c01 nstart 3 0", "c01 nopen 1 2 10 20", "c01 nsend 1 2 11", "c01 nsend 2 1 21",
 		"c01 nsend 1 1 12", "c01 nrace 0 1 30 31", "c01 nsend 0 1 32", "c01 nsend 1 0 33", "c01 nrace 0 1 34 35"}})
 	yield(&h.Case{Class: "net-corpus", Ops: []string{"c01 nstart 2 1", "c01 nrace 0 1 1 2", "c01 nopen 0 1 3 4", "c01 nsend 1 0 5", "c01 nsend 0 0 6"}})
+	// an undecodable frame between two values on one connection (first contact and established connection, both kinds, both transports)
+	yield(&h.Case{Class: "net-corpus-junk", Ops: []string{"c01 nstart 3 0", "c01 njunk 0 1 0 1 2", "c01 nsend 0 1 3", "c01 njunk 0 1 1 4 5", "c01 nsend 1 0 6", "c01 njunk 1 0 0 7 8", "c01 nsend 0 1 9"}})
+	yield(&h.Case{Class: "net-corpus-junk", Ops: []string{"c01 nstart 2 1", "c01 nsend 0 1 1", "c01 njunk 0 1 0 2 3", "c01 njunk 0 1 1 4 5", "c01 nsend 0 1 6", "c01 nopen 0 1 7 8", "c01 njunk 1 0 0 9 10"}})
 	for k := 0; k < c01pick(c, 24, 400, 60); k++ {
 		n := 2 + r.Intn(4)
 		tcp := 0
@@ -350,12 +445,18 @@ func c01netGen(c *h.Ctx, yield func(*h.Case)) {
 			a := r.Intn(n)
 			b := r.Intn(n)
 			switch x := r.Intn(10); {
-			case x < 5:
+			case x < 4:
 				v++
 				cs.Ops = append(cs.Ops, fmt.Sprintf("c01 nsend %d %d %d", a, b, v))
 				if a == b {
 					c.Count("op=nsend-self")
 				}
+			case x < 6:
+				if a == b {
+					b = (a + 1) % n
+				}
+				cs.Ops = append(cs.Ops, fmt.Sprintf("c01 njunk %d %d %d %d %d", a, b, r.Intn(2), v+1, v+2))
+				v += 2
 			case x < 8:
 				if a == b {
 					b = (a + 1) % n
